@@ -972,6 +972,109 @@ fn check_wiring(cx: &mut Ctx) -> R {
         let r = EndianSlice::new(expect(sid), endian);
         ensure_eq!(borrowed.lookup_offset_id(r.offset_id()), Some((false, sid, 0usize)), "c17/wiring/sections/borrow", "{:?}", sid);
     }
+    // every way of turning loaded sections into a `Dwarf` must keep each section in its own field
+    let fields = |d: &gimli::Dwarf<EndianSlice<RunTimeEndian>>, bufs: &BTreeMap<&'static str, Vec<u8>>, sup: bool, what: &str| -> R {
+        let e = |sid: SectionId| -> &[u8] { &bufs[sid.name()] };
+        for (got, sid) in [
+            (d.debug_abbrev.reader().slice(), SectionId::DebugAbbrev),
+            (d.debug_addr.reader().slice(), SectionId::DebugAddr),
+            (d.debug_aranges.reader().slice(), SectionId::DebugAranges),
+            (d.debug_info.reader().slice(), SectionId::DebugInfo),
+            (d.debug_line.reader().slice(), SectionId::DebugLine),
+            (d.debug_line_str.reader().slice(), SectionId::DebugLineStr),
+            (d.debug_macinfo.reader().slice(), SectionId::DebugMacinfo),
+            (d.debug_macro.reader().slice(), SectionId::DebugMacro),
+            (d.debug_names.reader().slice(), SectionId::DebugNames),
+            (d.debug_str.reader().slice(), SectionId::DebugStr),
+            (d.debug_str_offsets.reader().slice(), SectionId::DebugStrOffsets),
+            (d.debug_types.reader().slice(), SectionId::DebugTypes),
+            (d.ranges.debug_ranges().reader().slice(), SectionId::DebugRanges),
+            (d.ranges.debug_rnglists().reader().slice(), SectionId::DebugRngLists),
+        ] {
+            ensure_eq!(got, e(sid), format!("c17/wiring/{}/field", what), "{:?}", sid);
+        }
+        for sid in [SectionId::DebugLoc, SectionId::DebugLocLists] {
+            // the location list sections are not exposed: through the offset-id lookup (of the file that holds them)
+            let r = EndianSlice::new(e(sid), endian);
+            ensure_eq!(d.lookup_offset_id(r.offset_id()), Some((false, sid, 0usize)), format!("c17/wiring/{}/lookup_offset_id", what), "{:?}", sid);
+        }
+        let _ = sup;
+        Ok(())
+    };
+    let sup_bufs0: BTreeMap<&'static str, Vec<u8>> = ALL_IDS.iter().map(|id| (id.name(), format!("<sup {}>", id.name()).into_bytes())).collect();
+    let load_sup0 = |id: SectionId| -> Result<EndianSlice<RunTimeEndian>, gimli::Error> { Ok(EndianSlice::new(sup_bufs0.get(id.name()).map(|v| &v[..]).unwrap_or(&[]), endian)) };
+    fields(&dwarf, &bufs, false, "dwarf")?;
+    fields(&borrowed, &bufs, false, "sections-borrow")?;
+    {
+        let sup_secs: gimli::DwarfSections<EndianSlice<RunTimeEndian>> = gimli::DwarfSections::load(load_sup0).unwrap();
+        let both = secs.borrow_with_sup(Some(&sup_secs), |s| *s);
+        fields(&both, &bufs, false, "sections-borrow_with_sup")?;
+        let Some(sup) = both.sup() else { fail!("c17/wiring/sections-borrow_with_sup/no-sup", "") };
+        fields(sup, &sup_bufs0, true, "sections-borrow_with_sup-sup")?;
+        ensure!(secs.borrow_with_sup(None, |s| *s).sup().is_none(), "c17/wiring/sections-borrow_with_sup/phantom-sup", "");
+    }
+    {
+        // owned sections, then Dwarf::borrow (with a supplementary file)
+        let mut owned: gimli::Dwarf<Vec<u8>> = gimli::Dwarf::load(|id: SectionId| -> Result<Vec<u8>, gimli::Error> { Ok(bufs.get(id.name()).cloned().unwrap_or_default()) }).unwrap();
+        owned.load_sup(|id: SectionId| -> Result<Vec<u8>, gimli::Error> { Ok(sup_bufs0.get(id.name()).cloned().unwrap_or_default()) }).unwrap();
+        owned.file_type = gimli::DwarfFileType::Dwo;
+        let b = owned.borrow(|v| EndianSlice::new(&v[..], endian));
+        // offset ids are addresses: compare contents through the fields, and the lists through fresh lookups
+        let e = |sid: SectionId| -> &[u8] { &bufs[sid.name()] };
+        for (got, sid) in [
+            (b.debug_abbrev.reader().slice(), SectionId::DebugAbbrev),
+            (b.debug_addr.reader().slice(), SectionId::DebugAddr),
+            (b.debug_aranges.reader().slice(), SectionId::DebugAranges),
+            (b.debug_info.reader().slice(), SectionId::DebugInfo),
+            (b.debug_line.reader().slice(), SectionId::DebugLine),
+            (b.debug_line_str.reader().slice(), SectionId::DebugLineStr),
+            (b.debug_macinfo.reader().slice(), SectionId::DebugMacinfo),
+            (b.debug_macro.reader().slice(), SectionId::DebugMacro),
+            (b.debug_names.reader().slice(), SectionId::DebugNames),
+            (b.debug_str.reader().slice(), SectionId::DebugStr),
+            (b.debug_str_offsets.reader().slice(), SectionId::DebugStrOffsets),
+            (b.debug_types.reader().slice(), SectionId::DebugTypes),
+            (b.ranges.debug_ranges().reader().slice(), SectionId::DebugRanges),
+            (b.ranges.debug_rnglists().reader().slice(), SectionId::DebugRngLists),
+        ] {
+            ensure_eq!(got, e(sid), "c17/wiring/dwarf-borrow/field", "{:?}", sid);
+        }
+        ensure_eq!(b.file_type, gimli::DwarfFileType::Dwo, "c17/wiring/dwarf-borrow/file_type");
+        let Some(sup) = b.sup() else { fail!("c17/wiring/dwarf-borrow/no-sup", "") };
+        ensure_eq!(sup.debug_str.reader().slice(), &sup_bufs0[SectionId::DebugStr.name()][..], "c17/wiring/dwarf-borrow/sup-debug_str");
+        ensure_eq!(sup.debug_info.reader().slice(), &sup_bufs0[SectionId::DebugInfo.name()][..], "c17/wiring/dwarf-borrow/sup-debug_info");
+        ensure_eq!(sup.debug_line_str.reader().slice(), &sup_bufs0[SectionId::DebugLineStr.name()][..], "c17/wiring/dwarf-borrow/sup-debug_line_str");
+    }
+    {
+        // owned package sections, then DwarfPackageSections::borrow
+        let owned: gimli::DwarfPackageSections<Vec<u8>> = gimli::DwarfPackageSections::load(|id: SectionId| -> Result<Vec<u8>, gimli::Error> { Ok(bufs.get(id.name()).cloned().unwrap_or_default()) }).unwrap();
+        // the index sections must parse: give the borrow empty indexes (an empty section is a valid empty index)
+        let mut owned = owned;
+        owned.cu_index = gimli::DebugCuIndex::from(Vec::new());
+        owned.tu_index = gimli::DebugTuIndex::from(Vec::new());
+        let empty = EndianSlice::new(&[][..], endian);
+        match owned.borrow(|v| EndianSlice::new(&v[..], endian), empty) {
+            Ok(pkb) => {
+                let e = |sid: SectionId| -> &[u8] { &bufs[sid.name()] };
+                for (got, sid) in [
+                    (pkb.debug_abbrev.reader().slice(), SectionId::DebugAbbrev),
+                    (pkb.debug_info.reader().slice(), SectionId::DebugInfo),
+                    (pkb.debug_line.reader().slice(), SectionId::DebugLine),
+                    (pkb.debug_macinfo.reader().slice(), SectionId::DebugMacinfo),
+                    (pkb.debug_macro.reader().slice(), SectionId::DebugMacro),
+                    (pkb.debug_str.reader().slice(), SectionId::DebugStr),
+                    (pkb.debug_str_offsets.reader().slice(), SectionId::DebugStrOffsets),
+                    (pkb.debug_loc.reader().slice(), SectionId::DebugLoc),
+                    (pkb.debug_loclists.reader().slice(), SectionId::DebugLocLists),
+                    (pkb.debug_rnglists.reader().slice(), SectionId::DebugRngLists),
+                    (pkb.debug_types.reader().slice(), SectionId::DebugTypes),
+                ] {
+                    ensure_eq!(got, e(sid), "c17/wiring/package-borrow/field", "{:?}", sid);
+                }
+            }
+            Err(e) => fail!("c17/wiring/package-borrow/rejected", "{:?}", e),
+        }
+    }
     // supplementary object file
     let sup_bufs: BTreeMap<&'static str, Vec<u8>> = ALL_IDS.iter().map(|id| (id.name(), format!("<sup {}>", id.name()).into_bytes())).collect();
     let mut with_sup = gimli::Dwarf::load(load).unwrap();
